@@ -234,6 +234,19 @@ class Contract:
                     self.exhaustive_only = True   # native search: only the EXHAUSTIVE generator, no random phase
                 elif f == "abstract_regex":
                     self.abstract_regex = [x.value for x in c.args]
+                elif f == "cut_before_assign":
+                    # cut_before_assign("name", invariant): each time control reaches an assignment `name = ...` the
+                    # invariant is an obligation; the sequence yielded so far is then forgotten and re-introduced as a
+                    # fresh value satisfying the invariant (a cut in straight-line code: keeps the term small)
+                    if not hasattr(self, "cuts"):
+                        self.cuts = {}
+                    self.cuts.setdefault(c.args[0].value, []).append(c.args[1])
+                elif f == "exact_filters":
+                    self.exact_filters = True
+                elif f == "merge_paths":
+                    # join the paths of every `if` statement into one state (values become ite terms / unions):
+                    # same obligations, far fewer paths for long chains of independent branches
+                    self.merge_paths = True
                 elif f == "no_native":
                     self.no_native = c.args[0].value if c.args else "no native stand-in"
                 elif f == "generator":
@@ -532,9 +545,7 @@ class SpecFunction:
                 args = {}
                 for (n, k), v in zip(spec.params, pos):
                     if not fits(v, k) and isinstance(v, UnionV):
-                        cand = [a for _, a in v.alts if fits(a, k)]
-                        if len(cand) == 1:
-                            v = cand[0]
+                        v = _project(v, k)
                     if not fits(v, k):
                         raise Unsupported(f"spec {spec.name}: arg {n} kind {v.kind!r} vs {k!r}")
                     args[n] = v
@@ -558,15 +569,39 @@ class SpecFunction:
             for (n, k), v in zip(spec.params, pos):
                 if not fits(v, k) and isinstance(v, UnionV):
                     # total (underspecified) projection onto the expected kind
-                    cand = [a for _, a in v.alts if fits(a, k)]
-                    if len(cand) == 1:
-                        v = cand[0]
+                    v = _project(v, k)
                 if not fits(v, k):
                     raise Unsupported(f"spec {spec.name}: arg {n} kind {v.kind!r} vs {k!r}")
                 args.append(box(v, k))
             return [(st, unbox(spec.decl()(*args), spec.ret))]
 
         return FuncV(call, self.name)
+
+
+def _flat_alts(v, guard=None):
+    """(guard, alternative) pairs of a possibly nested union value, e.g. Opt[Union[str, Dict]] -> str, dict, None."""
+    out = []
+    for g, a in v.alts:
+        g2 = g if guard is None else z3.And(guard, g)
+        if isinstance(a, UnionV):
+            out.extend(_flat_alts(a, g2))
+        else:
+            out.append((g2, a))
+    return out
+
+
+def _project(v, k):
+    """Total (underspecified) projection of a union value onto kind k: the alternative of kind k that the guards select
+    (an ite over them when several alternatives have the kind; the last one stands for "none of them")."""
+    cand = [(g, a) for g, a in _flat_alts(v) if fits(a, k)]
+    if not cand:
+        return v
+    if len(cand) == 1:
+        return cand[0][1]
+    t = box(cand[-1][1], k)
+    for g, a in reversed(cand[:-1]):
+        t = z3.If(g, box(a, k), t)
+    return unbox(t, k)
 
 
 class Lemma:
@@ -940,6 +975,11 @@ def _cf_re_sub(eng, st, pos, kw):
 
 def _cf_keys(eng, st, pos, kw):
     d = pos[0]
+    if isinstance(d, UnionV):
+        # total (underspecified) projection onto the one dict alternative, as for spec arguments
+        cand = [a for _, a in _flat_alts(d) if isinstance(a, DictV)]
+        if cand and all(a.kind == cand[0].kind for a in cand):
+            d = _project(d, cand[0].kind)
     if isinstance(d, DictV):
         return [(st, ListV(d.kk, d.keys))]
     raise Unsupported("keys() of non-dict")
@@ -1188,6 +1228,9 @@ class Verifier(Engine):
         self.loop_ordinals = ex.loop_ordinals
         self.line0 = ex.lineno
         self.abstract_patterns = set()
+        self.merge_paths = bool(getattr(c, "merge_paths", False))
+        self.cuts = dict(getattr(c, "cuts", {}))
+        self.exact_filters = bool(getattr(c, "exact_filters", False))
         for dotted in getattr(c, "abstract_regex", []):
             self.abstract_patterns.add(resolve_dotted(dotted).pattern)
         self.var_kinds = dict(c.local_kinds)
